@@ -120,6 +120,7 @@ def rtc_lanczos(dtname, kinds, tier):
                 batch = (2,)
             init = ["supplied1", "supplied3", "random1", "supplied1", "random2"][(i + 2 * vv) % 5]
             seed += 1
+            torch.set_default_dtype(torch.float64 if (seed % 2 == 0 and dt == torch.float32) else torch.float32)  # default dtype != operator dtype in half of the cases (one OS process per unit: no restore needed)
             g = K.zoo.gen(30000 + seed)
             A = _psd(K, g, batch, n, kind, cond, dt)
             nv = {"supplied1": 1, "supplied3": 3, "random1": 1, "random2": 2}[init]
@@ -309,13 +310,14 @@ def rtc_consumers(dtname, kinds, tier):
     for kind, cond, n in itertools.product(kinds, conds, sizes):
         i = sizes.index(n) + int(math.log10(cond)) + len(kind)
         for vv in range(2 if tier == "quick" else 4):
-            batch = K.BATCHES[(i + vv) % 4]
-            if n > 13 and batch == (2, 3):
+            batch = (K.BATCHES + [(1, 2)])[(i + vv) % 5]
+            if n > 13 and batch in ((2, 3), (1, 2)):
                 batch = (1,)
             ks = sorted({2, 3, max(2, n // 2), n, n + 2}) if (tier == "thorough" or n <= 8) else sorted({[2, 3][vv % 2], max(2, n // 2), [n, n + 2][vv % 2]})
             for k in ks + [1]:
                 jitter = [1e-6, 0.0, 1e-3][(i + vv + k) % 3]
                 seed += 1
+                torch.set_default_dtype(torch.float64 if (seed % 2 == 0 and dt == torch.float32) else torch.float32)  # default dtype != operator dtype in half of the cases (one OS process per unit: no restore needed)
                 g = K.zoo.gen(40000 + seed)
                 A = _psd(K, g, batch, n, kind, cond, dt)
                 A64 = A.double()
@@ -323,6 +325,8 @@ def rtc_consumers(dtname, kinds, tier):
                 idxs = list(itertools.product(*[range(s) for s in batch])) if batch else [()]
                 lab = _lab(dt=dtname, kind=kind, cond=f"{cond:g}", n=n, b=batch, k=k, jitter=f"{jitter:g}")
                 sfx = f"{dtname}" if k > 1 else f"budget_one-{dtname}"
+                if batch == (1, 2) and k > 1:
+                    sfx = "leading_singleton_batch-" + sfx  # own group: several batch dimensions, the first of size 1
                 full = k >= n and kind not in ("repeated",) and pd
                 with settings.max_root_decomposition_size(k), settings.tridiagonal_jitter(jitter):
                     # ---- root_decomposition(method="lanczos") (random start vector)
@@ -387,7 +391,7 @@ def rtc_consumers(dtname, kinds, tier):
                                     v0 = iv[bi][..., 0].double()
                                     res = float((v0 - U @ (U.mT @ v0)).norm() / v0.norm())
                                     rec.check(f"root_inv_decomposition_contains_start/{sfx}", lab2 + f"|member={bi}", res <= (1e-7 if dt == torch.float64 else 1e-3), f"start vector not in the span: {res:.3e}")
-                            if nprobe > 1:
+                            if nprobe > 1 and kind in ("uniform", "geometric"):  # (no breakdown inside the budget: a joint run equals the single runs)
                                 # the probe that minimises the test residual is chosen: the returned factor is not worse on the
                                 # test vectors than the factor of any single probe
                                 def resid(Rr):
@@ -462,6 +466,7 @@ def rtc_consumers_zoo(case_names, tier):
     combos = [(c, dt, zb, zn) for c in zoo.CASES if c.name in case_names and c.psd and c.square for dt in zoo.DTYPES for zb in zbatches for zn in zsizes]
     for c, dt, zb, zn in combos:
         label = f"{c.name}|{str(dt)[6:]}|b={zb}|n={zn}"
+        lead1 = "leading_singleton_batch-" if (len(zb) > 1 and zb[0] == 1) else ""
         try:
             op, dense = rebuild(c, dt, zb, zn)
         except Exception:  # constructor failures belong to C01
@@ -484,7 +489,7 @@ def rtc_consumers_zoo(case_names, tier):
         # operators that are a multiple of the identity: every start vector is an eigenvector (own group)
         eye = torch.eye(n, dtype=torch.float64)
         scalar = bool(((D - D.diagonal(dim1=-1, dim2=-2).mean(-1)[..., None, None] * eye).abs().amax((-1, -2)) <= 1e-12 * ev[..., -1]).any())
-        gname = f"{c.name}" + ("-scalar_matrix" if scalar else "")
+        gname = lead1 + f"{c.name}" + ("-scalar_matrix" if scalar else "")
         for k in sorted({2, n + 1}):
             lab = f"{label}|k={k}"
             full = k >= n
@@ -551,7 +556,7 @@ RTC_META = {
     "assumptions": ["float64 eigh/svd/inv of torch are the oracle", "the matmul closure returns fresh storage (A.matmul)",
                     "float32 orthonormality is demanded to 5e-5 (the implementation's own re-orthogonalisation tolerance is 1e-5)"],
     "families": "PSD matrices: spectra uniform/clustered/geometric/repeated (3 distinct eigenvalues)/rank-deficient (members of different rank), "
-                "kappa 10..1e6, sizes 1..64, batch shapes (),(2,),(1,),(2,3), start vectors supplied (1 or 3 columns) / random (1 or 2), all "
+                "kappa 10..1e6, sizes 1..64, batch shapes (),(2,),(1,),(2,3) (consumers also (1,2)), start vectors supplied (1 or 3 columns) / random (1 or 2), all "
                 "max_iter in 1..n+2 (n<=10 quick, all sizes thorough; otherwise {1,2,3,n/2,n-1,n,n+1,n+2}), structured breakdown inputs "
                 "(c*I, diagonal with unit start, eigenvector start, rank-2, null-space start, mixed batches), debug checks; consumers with "
                 "max_root_decomposition_size in {1,2,3,n/2,n,n+2}, tridiagonal_jitter in {0,1e-6,1e-3}, 1 and 3 probes, f32/f64, zoo PSD classes",
